@@ -114,6 +114,8 @@ class ScenarioManagerSd(ScenarioManager):
 
         for name, scenario in scenario_dictionary.items():
 
+            # the base values are merged into a copy: the dictionary belongs to the caller, who may register it with another manager as well
+            scenario = copy.deepcopy(scenario)
 
             # ScenarioManager -> "scenarios" -> scenario_name -> "constants" (Update via base_constants)
             if len(self.base_constants.keys()) > 0:
